@@ -207,6 +207,8 @@ type W struct {
 	fails       map[string]*failRec
 	knownHit    map[string]int64
 	cur         any // case being judged (for panic reports)
+	// Prev is free for a judge to keep the previous case of this worker in (histories of the form A, B, A).
+	Prev any
 	scratch     []byte
 	flip        bool
 	scratchLast string
